@@ -609,8 +609,67 @@ def falsify_c11_subst(ctx, asm):
     ctx.count('substitution-sites', len(SITES))
 
 
+def falsify_c11_redefine(ctx, asm):
+    """A constant is the value of its (latest) defining expression over the EARLIER definitions: names assigned twice,
+    constants derived from a reassigned name, a caller-supplied dictionary that already binds the name, and the same
+    dictionary handed to a second call whose source defines other values."""
+    import struct
+    rng = ctx.rng
+    for i in range(40 if ctx.quick() else 400):
+        a0, k1, k2 = rng.randrange(1, 50), rng.randrange(2, 9), rng.randrange(1, 30)
+        # A = a0 ; B = A + k2 ; A = B * k1 ; C = A + B
+        src = 'A = {}\nB = A + {}\nA = B * {}\nC = A + B\ndw A\ndw B\ndw C\n'.format(a0, k2, k1)
+        B = a0 + k2; A = B * k1; C = A + B
+        want = struct.pack('<III', A, B, C)
+        for pre in (None, {'A': 7}, {'C': 1, 'Q': 2}):
+            ctx.evaluations += 1
+            ctx.nontriv(('redefine', a0, k1, k2, str(pre)))
+            d = dict(pre) if pre is not None else {}
+            try:
+                out = bytes(asm.assemble(src, constants=d))
+                got = (out, {k: d.get(k) for k in 'ABC'})
+            except Exception as e:
+                got = (type(e).__name__, None)
+            if got[0] != want or got[1] != {'A': A, 'B': B, 'C': C}:
+                ctx.cex('reassigned constant: A = {}, B = A + {}, A = B * {}, C = A + B gives {} (caller dict {})'.format(a0, k2, k1, got[1], pre),
+                        {'kind': 'redefine', 'source': src, 'constants': pre, 'want': [A, B, C]}, str(got)[:200], [A, B, C],
+                        {'kind': 'const-redefine'})
+        # one dictionary, two calls with different definitions of the same name
+        d = {}
+        for step, v in enumerate([a0, a0 + 100 + k1]):
+            ctx.evaluations += 1
+            src2 = 'STEP = {}\naddi a0, zero, STEP\ndw STEP * 2\n'.format(v)
+            try:
+                out = bytes(asm.assemble(src2, constants=d))
+                ok = d.get('STEP') == v and out[4:8] == struct.pack('<I', v * 2) and (int.from_bytes(out[:4], 'little') >> 20) == v
+            except Exception:
+                ok = False
+            if not ok:
+                ctx.cex('a constants dictionary reused for a second call keeps the earlier value of STEP (call {} defines {})'.format(step + 1, v),
+                        {'kind': 'redefine-calls', 'values': [a0, a0 + 100 + k1]}, d.get('STEP'), v, {'kind': 'const-redefine'})
+
+
 def replay_c11(asm, inp):
     k = inp.get('kind')
+    if k == 'redefine':
+        import struct
+        d = dict(inp['constants']) if inp.get('constants') else {}
+        try:
+            out = bytes(asm.assemble(inp['source'], constants=d))
+        except Exception:
+            return True
+        A, B, C = inp['want']
+        return out != struct.pack('<III', A, B, C) or {k: d.get(k) for k in 'ABC'} != {'A': A, 'B': B, 'C': C}
+    if k == 'redefine-calls':
+        d = {}
+        bad = False
+        for v in inp['values']:
+            try:
+                asm.assemble('STEP = {}\naddi a0, zero, STEP\n'.format(v), constants=d)
+            except Exception:
+                return True
+            bad = bad or d.get('STEP') != v
+        return bad
     if k == 'char':
         o = outcome(asm, inp['source'], False)
         return not (o[0] == 'OK' and o[1] == bytes([ord(inp['char'])]))
